@@ -71,5 +71,50 @@ def r02_6(ctx):
 r02_6.rule_id = "R02.6"
 
 
-RULES = [r02_1, r02_2, r02_3, r02_4, r02_5, r02_6]
-FLOORS = {"R02.1": 2, "R02.2": 12, "R02.3": 4, "R02.4": 4, "R02.4a": 2, "R02.5": 5, "R02.6": 2}
+def r02_7(ctx):
+    """guard free-list typestate: clear() hands the extension blocks back to the allocator; unless it also re-links free_head_ over the
+    initial array, every record that alloc_thread_data() returns (new or reused) must pass through hazards_.init()"""
+    from sa.pathsim import PathSim, NULL
+    from sa.q import sv_field_path, strip_sv, noepoch
+    CL = ctx.need("cds::gc::dhp::thread_hp_storage::clear")[0]
+    IN = ctx.need("cds::gc::dhp::thread_hp_storage::init")[0]
+    A = ctx.need("cds::gc::dhp::smr::alloc_thread_data")[0]
+    frees = relinks = False
+    for p in PathSim(CL, bound=512).run():
+        for e in p.events:
+            if e.kind == "call" and e.q and e.q.endswith("hp_allocator::free"):
+                frees = True
+            if (e.kind == "store" and sv_field_path(e.obj)[-1:] == ["free_head_"]) or (e.kind == "call" and e.q and e.q.endswith("thread_hp_storage::init")):
+                relinks = True
+    ctx.ok("R02.7", CL, "clear(): releases extension blocks=%s, re-links the free list itself=%s" % (frees, relinks), None, sig="clear-shape")
+    # init() rebuilds the free list over exactly the initial array
+    head = last = link = False
+    for p in PathSim(IN, bound=512).run():
+        for e in p.events:
+            if e.kind == "store" and sv_field_path(e.obj)[-1:] == ["free_head_"]:
+                head = sv_field_path(e.val)[-1:] == ["array_"]
+            if e.kind == "store" and sv_field_path(e.obj)[-1:] == ["next_"]:
+                if e.val == NULL:
+                    last = True
+                elif isinstance(e.val, tuple) and e.val[0] == "op" and e.val[1] == "+" and e.val[2] == strip_sv(e.obj):
+                    link = True
+    ctx.check(head and last and link, "R02.7", IN, "init() links the initial guard array into a null-terminated free list and points free_head_ at it", None,
+              detail="free_head_=array_:%s, next_=p+1:%s, last->next_=nullptr:%s. %s" % (head, link, last, R), sig="init-relinks")
+    n = 0
+    for p in PathSim(A, bound=2048).run():
+        if p.outcome != "return":
+            continue
+        n += 1
+        if frees and not relinks:
+            ini = [e for e in p.events if e.kind == "call" and e.q and e.q.endswith("thread_hp_storage::init") and e.obj is not None
+                   and sv_field_path(e.obj)[-1:] == ["hazards_"] and strip_sv(e.obj) == p.ret]
+            ctx.check(bool(ini), "R02.7", A, "every thread record handed out (new or reused) has its guard free list re-initialised", None,
+                      detail="clear() released the extension blocks at detach but left free_head_ pointing into them: without init() the new owner allocates guards "
+                      "from blocks that scan() never visits (or that another thread now owns). " + R, sig="reuse-reinit")
+    if n < 2:
+        ctx.broken("alloc_thread_data return paths not found")
+r02_7.rule_id = "R02.7"
+
+
+RULES = [r02_1, r02_2, r02_3, r02_4, r02_5, r02_6, r02_7]
+FLOORS = {"R02.1": 2, "R02.2": 12, "R02.3": 4, "R02.4": 4, "R02.4a": 2, "R02.5": 5, "R02.6": 2, "R02.7": 4}
